@@ -199,7 +199,7 @@ Definition class_groups (s : structure) : list (list string) :=
     map dollar_view_name (dollar_accessors (st_units s));
     fixed_members s ++ st_enums s ].
 
-Definition class_scope_names (s : structure) : list string := concat (class_groups s).
+Definition class_scope_names (s : structure) : list string := List.concat (class_groups s).
 
 (* a namespace scope: the module namespace, or `namespace <Struct>` holding the
    struct's nested types and the validators of its fields *)
@@ -235,7 +235,7 @@ Definition ns_groups (n : nspace) : list (list string) :=
     map (fun t => (t ++ "View")%string) (ns_structs n);
     ns_structs n ++ ns_enums n ++ enum_shared n ].
 
-Definition ns_scope_names (n : nspace) : list string := concat (ns_groups n).
+Definition ns_scope_names (n : nspace) : list string := List.concat (ns_groups n).
 
 Inductive scope := ClassScope (s : structure) | NsScope (n : nspace) | EnumScope (d : edecl).
 
@@ -310,8 +310,9 @@ Definition names_guard (sc : scope) : bool :=
   | NsScope n =>
       strings_distinct (map snake_to_camel (ns_validated n)) &&
       forallb (fun t => N.eqb (ns_tag t) 8) (ns_structs n ++ ns_enums n) &&
-      forallb (fun t => N.eqb (ns_tag (t ++ "Writer")) 6 && N.eqb (ns_tag (t ++ "View")) 7) (ns_structs n) &&
+      forallb (fun t => N.eqb (ns_tag (t ++ "Writer")) 6 && N.eqb (ns_tag (t ++ "View")) 7 &&
+                        N.eqb (ns_tag ("Make" ++ t ++ "View")) 4) (ns_structs n) &&
       forallb (fun t => negb (string_mem t (enum_shared n))) (ns_structs n ++ ns_enums n)
   | EnumScope d =>
-      forallb (fun ev => letter_boundaries_b (ev_name ev) && strings_distinct_cases (ev_cases ev)) (ed_values d)
+      forallb (fun ev => letter_boundaries (ev_name ev) && cases_distinct (ev_cases ev)) (ed_values d)
   end.
